@@ -14,7 +14,7 @@ CONSTANTS MaxSteps,   \* bound on behaviour length for the exhaustive check
           AlignC,     \* alignment arguments
           CfgNilC,    \* whether the formatted constructors are also called with a nil config
           PageC,      \* page-setting calls
-          ViaC,       \* Reopen: "mem" | "file";   Render: "doc" | "legacy"
+          ViaC,       \* Reopen: "mem" | "file" | "word" (through a package with Word-style part names);   Render: "doc" | "legacy"
           RViaC,
           DataC,      \* Render: "def" | "undef" (is the placeholder's variable set?)
           LastC,      \* generation: op names allowed as the last step of a behaviour ({} = all); keeps -simulate
@@ -101,6 +101,9 @@ Act_Flags ==
 \* Save / Reopen / Render keep every definition (Render up to substitution)
 Act_Survive ==
   [][last'.op \in SaveOps \cup {"Reopen"} => (st'.pkg = st.pkg /\ st'.def = st.def)]_vars
+\* only a trip through a foreign-named package changes the naming class, and never back
+Act_Names ==
+  [][st'.names # st.names => (last'.op = "Reopen" /\ last'.via = "word" /\ st'.names = "foreign")]_vars
 
 \* ---- generation: print each complete behaviour once ----------------------
 Emit == Len(hist) < Depth \/ PrintT(<<"WZCASE", ToJson(hist)>>)
